@@ -19,6 +19,7 @@ EXPLANATION = (
     "keys, __getattr__ maps to items. R4 result sources: each result field reads its designated state location; target_type/problem_type "
     "mapping. R5: any store to the incumbent point after the record block takes a recorded iterate from the history under the noisy-mode "
     "guard, so the returned x is a recorded iterate. R6 must-definition dataflow over set_attributes (exceptional edges included): a field stored anywhere is stored on every path. Decides record structure, not the numeric values recorded."
+    " R7 self.x0 does not may-alias a constructor argument at the end of __init__ (element-wise alias summaries of helper returns). R1 also requires a swap to assign all of yval / fval / fsd."
 )
 
 VALUE_ATTRS = ("yval", "fval", "fsd")
